@@ -67,6 +67,13 @@ func wrapTexts(seed int64, n int) []string {
 	for _, ws := range []string{"", " ", "\n", "\r\n", "\t", "\r", "\n \r\n\t", "\v", "\f", "\u00a0"} {
 		out = append(out, "<mj-text>"+ws+"<![CDATA[x<br/>]]>"+ws+"</mj-text"+ws+">", "<mj-text a='b'"+ws+">"+ws+"<![cdata[x]]></MJ-TEXT"+ws+">tail<mj-text"+ws+"/>")
 	}
+	// every entity the markup-only replacement knows, first inside material it must not touch (a comment, an author-written
+	// CDATA section), then in markup; markup first; both around — a scan that keeps a position across the skipped
+	// material must find the later occurrences
+	for _, e := range []string{"&copy;", "&reg;", "&trade;", "&nbsp;", "&#xA0;", "&#160;", "&ndash;", "&mdash;", "&hellip;"} {
+		out = append(out, "<!-- "+e+" 2023 --> x "+e+" y", "<![CDATA["+e+"]]>"+e, e+"<!-- "+e+" -->"+e+" "+e, "<mj-text><![CDATA[write "+e+"]]></mj-text><mj-text>"+e+"</mj-text>",
+			"<!-- "+e+" --><a t=\""+e+"\">"+e+"</a>", "<![CDATA["+e+"]]><!-- "+e+" -->"+e+"<![CDATA["+e+"]]>"+e)
+	}
 	for i := 0; i < n; i++ {
 		r := NewRng(seed, fmt.Sprintf("wraptexts/%d", i))
 		var b strings.Builder
